@@ -185,41 +185,50 @@ fn c12_walk_value_step() {
     std::mem::forget(s);
 }
 
-/// The two visitors on one comparison node (all on the stack): uses(f) iff the
-/// node's field is f; uses_list(f) iff additionally the comparison is `in $list`.
-#[kani::proof]
-#[kani::unwind(5)]
-fn c12_uses_single_comparison() {
-    let mut b = SchemeBuilder::new();
-    b.lists.push((Type::Int, Box::new(crate::list_matcher::NeverList {})));
-    let s = b.build();
-    let other = mk_scheme();
-    let i: usize = kani::any();
-    let j: usize = kani::any();
-    kani::assume(i < 4 && j < 4);
-    let in_list: bool = kani::any();
-    let node = LogicalExpr::Comparison(ComparisonExpr {
-        lhs: index_of_field(&s, j),
-        op: if in_list {
-            ComparisonOpExpr::InList { list: List { scheme: s.clone(), index: 0 }, name: ListName::from(String::from("l")) }
-        } else {
-            ComparisonOpExpr::IsTrue
-        },
-    });
-    let mut v = UsesVisitor::new(FieldRef { scheme: &s, index: i });
-    v.visit_logical_expr(&node);
-    assert!(v.uses() == (i == j), "uses(field) must be true exactly when the field occurs");
-    let mut vl = UsesListVisitor::new(FieldRef { scheme: &s, index: i });
-    vl.visit_logical_expr(&node);
-    assert!(vl.uses() == (i == j && in_list), "uses_list(field) must be true exactly when the field occurs in an `in $list` comparison");
-    // a field of another scheme with the same index is a different field
-    let mut vo = UsesVisitor::new(FieldRef { scheme: &other, index: j });
-    vo.visit_logical_expr(&node);
-    assert!(!vo.uses(), "a field of a different scheme must not be reported as used");
-    kani::cover!(v.uses() && !vl.uses());
-    kani::cover!(vl.uses());
-    kani::cover!(!v.uses());
-    std::mem::forget(node);
-    std::mem::forget(s);
-    std::mem::forget(other);
+/// The two visitors on one comparison node: uses(f) iff the node's field is f;
+/// uses_list(f) iff additionally the comparison is `in $list`. The operator
+/// variant is concrete per harness and the unwinding bound is 2: CBMC does not
+/// fold the tags inside the node, so the visitors' recursion into (infeasible)
+/// call-argument arms is cut by the bound, with its unwinding assertions on.
+macro_rules! uses_harness {
+    ($name:ident, $in_list:expr) => {
+        #[kani::proof]
+        #[kani::unwind(2)]
+        fn $name() {
+            let mut b = SchemeBuilder::new();
+            b.lists.push((Type::Int, Box::new(crate::list_matcher::NeverList {})));
+            let s = b.build();
+            let other = mk_scheme();
+            let i: usize = kani::any();
+            let j: usize = kani::any();
+            kani::assume(i < 4 && j < 4);
+            let node = LogicalExpr::Comparison(ComparisonExpr {
+                lhs: index_of_field(&s, j),
+                op: if $in_list {
+                    ComparisonOpExpr::InList { list: List { scheme: s.clone(), index: 0 }, name: ListName::from(String::from("l")) }
+                } else {
+                    ComparisonOpExpr::IsTrue
+                },
+            });
+            let mut v = UsesVisitor::new(FieldRef { scheme: &s, index: i });
+            v.visit_logical_expr(&node);
+            assert!(v.uses() == (i == j), "uses(field) must be true exactly when the field occurs");
+            let mut vl = UsesListVisitor::new(FieldRef { scheme: &s, index: i });
+            vl.visit_logical_expr(&node);
+            assert!(vl.uses() == (i == j && $in_list), "uses_list(field) must be true exactly when the field occurs in an `in $list` comparison");
+            // a field of another scheme with the same index is a different field
+            let mut vo = UsesVisitor::new(FieldRef { scheme: &other, index: j });
+            vo.visit_logical_expr(&node);
+            assert!(!vo.uses(), "a field of a different scheme must not be reported as used");
+            kani::cover!(v.uses());
+            kani::cover!(!v.uses());
+            kani::cover!(vl.uses() == $in_list && i == j);
+            std::mem::forget(node);
+            std::mem::forget(s);
+            std::mem::forget(other);
+        }
+    };
 }
+
+uses_harness!(c12_uses_comparison_plain, false);
+uses_harness!(c12_uses_comparison_in_list, true);
